@@ -114,3 +114,18 @@ def skeletons(rng, per_slot: int = 1):
         for _ in range(120):
             out.append("$[?" + t.replace("{X}", pick()).replace("{Y}", pick()) + "]")
     return list(dict.fromkeys(out))
+
+
+def logical_param_skeletons(rng):
+    """Texts around a user-registered function bl: LogicalType -> LogicalType (no built-in has a LogicalType
+    parameter): every operand shape as its argument, alone, compared, parenthesised, negated."""
+    sk = skeletons(rng)
+    inner = [t[3:-1] for t in rng.sample(sk, 500)]
+    out = []
+    for x in inner:
+        out.append(f"$[?bl({x})]")
+        if rng.random() < 0.3:
+            out.append(f"$[?bl({x}) && @.a]")
+            out.append(f"$[?count(@[?bl({x})]) > 0]")
+            out.append(f"$[?!bl({x})]")
+    return list(dict.fromkeys(out))
